@@ -110,6 +110,11 @@ static EbErrorType svt_dec_handle_ctor(EbDecHandle **   decHandleDblPtr,
     // error paths (a corrupt first frame, an early deinit) read members nothing has set yet
     memset(dec_handle_ptr, 0, sizeof(*dec_handle_ptr));
     dec_handle_ptr->memory_map       = (EbMemoryMapEntry *)malloc(sizeof(EbMemoryMapEntry));
+    if (dec_handle_ptr->memory_map == NULL) {
+        free(dec_handle_ptr);
+        *decHandleDblPtr = NULL;
+        return EB_ErrorInsufficientResources;
+    }
     dec_handle_ptr->memory_map_index = 0;
     dec_handle_ptr->total_lib_memory = sizeof(EbComponentType) + sizeof(EbDecHandle) +
         sizeof(EbMemoryMapEntry);
